@@ -54,6 +54,9 @@ func LoadConfigFromCRDs(
 }
 
 func makeNameToApiMap(content []byte) (result nameToApiMap, err error) {
+	if len(content) == 0 {
+		return nil, errors.Errorf("the file is empty")
+	}
 	if content[0] == '{' {
 		err = json.Unmarshal(content, &result)
 	} else {
